@@ -515,6 +515,35 @@ fn spawn_h2_request(mut sender: H2Sender, q: ReqPlan) -> tokio::task::JoinHandle
 }
 
 async fn run_episode(r: &mut StdRng, ep: u64, mode: &str) {
+    let mem_start = dropshot::verif::peek_memory(0).len();
+    run_episode_inner(r, ep, mode).await;
+    // Quiescence: every request the server started has either produced its response or had its future
+    // dropped.  (With HTTP/2 each stream's future is its own task and may still be polled once after
+    // close() has returned; its last event belongs to this episode, not the next one.)
+    let deadline = tokio::time::Instant::now() + Duration::from_secs(10);
+    loop {
+        let mut open: std::collections::HashSet<String> = Default::default();
+        for l in dropshot::verif::peek_memory(mem_start) {
+            let v: serde_json::Value = serde_json::from_str(&l).unwrap();
+            let id = v["id"].as_str().unwrap_or("").to_string();
+            match v["ev"].as_str().unwrap_or("") {
+                "req_start" => { open.insert(id); }
+                "resp_ready" | "req_cancelled" => { open.remove(&id); }
+                _ => {}
+            }
+        }
+        if open.is_empty() {
+            break;
+        }
+        if tokio::time::Instant::now() > deadline {
+            emit("quiesce_timeout", json!({"open": open.len()}));
+            break;
+        }
+        tokio::time::sleep(Duration::from_millis(2)).await;
+    }
+}
+
+async fn run_episode_inner(r: &mut StdRng, ep: u64, mode: &str) {
     let (reqs, plan, nconn, conn_h2) = make_plan(r, ep, mode);
     let ctx = Arc::new(Ctx { reqs: Mutex::new(HashMap::new()), changed: tokio::sync::Notify::new() });
     let mut api = ApiDescription::new();
